@@ -35,10 +35,11 @@ def slotOf (ti : TreeInfo) (g : Nat) : Nat := (mapCapnum (mainCfg ti) (g : Int))
 
 /-- the world of one attempt of the program of `t` -/
 def worldOf (ti : TreeInfo) (t : GoNode) (TPx : TP) (env : VM.Env) (se : Spec.Env)
-    (hrel : EnvRel TPx (codeFromTree (mainCfg ti) t).2.sets env se) (hlen : se.n ≤ 2147483647) : World :=
+    (hrel : EnvRel TPx (codeFromTree (mainCfg ti) t).2.sets env se) (hlen : se.n ≤ 2147483647) (k : Nat)
+    (hlenS : 4 ≤ k → se.n < 2147483647) : World :=
   { X := { p := emit ti t, env := env, se := se, sl := slotOf ti },
     TPx := TPx, caps := (writerCaps ti).2, fin := (codeFromTree (mainCfg ti) t).2,
-    hrel := hrel, hstr := rfl, hnsets := rfl, hsl := fun _ => rfl, hlen := hlen }
+    hrel := hrel, hstr := rfl, hnsets := rfl, hsl := fun _ => rfl, hlen := hlen, k := k, hlenS := hlenS }
 
 theorem instrAt_of_split {p : Prog} {pre post : Code} {i : Instr} (hc : p.codes = (flatten (pre ++ i :: post)).toArray)
     (hop : i.op < 1024) : InstrAt p (codeLen pre) i := by
@@ -96,10 +97,13 @@ structure Agrees (ti : TreeInfo) (se : Spec.Env) (pat : Pat) (i : Nat) (s : VMSt
   /-- … and the capture arrays hold, slot by slot and in order, the intervals of the specification's capture log -/
   caps : ∀ st, Spec.attempt se pat false i = some st → CapRep (slotOf ti) (capsize ti) s.cap st.caps
 
-/-- **the refinement on the fragment of the tiers `≤ maxTier`** -/
-theorem compile_correct_upto (ti : TreeInfo) (t : GoNode) (TPx : TP) (env : VM.Env) (se : Spec.Env) (pat : Pat) (i : Nat)
-    (hfrag : InFrag maxTier TPx ti t = true) (hwf : treeWf ti t = true) (hpat : toPatRoot TPx false t = some pat)
-    (hrel : EnvRel TPx (codeFromTree (mainCfg ti) t).2.sets env se) (hi : i ≤ se.n) (hlen : se.n ≤ 2147483647) :
+/-- **the refinement on the fragment of a tier `k ≤ maxTier`**; from tier 4 on (general loops) the text must be strictly
+    shorter than `MaxInt32` -/
+theorem compile_correct_upto (k : Nat) (hk : k ≤ maxTier) (ti : TreeInfo) (t : GoNode) (TPx : TP) (env : VM.Env)
+    (se : Spec.Env) (pat : Pat) (i : Nat)
+    (hfrag : InFrag k TPx ti t = true) (hwf : treeWf ti t = true) (hpat : toPatRoot TPx false t = some pat)
+    (hrel : EnvRel TPx (codeFromTree (mainCfg ti) t).2.sets env se) (hi : i ≤ se.n) (hlen : se.n ≤ 2147483647)
+    (hlenS : 4 ≤ k → se.n < 2147483647) :
     ∃ s0 s n, VM.init (emit ti t) (i : Int) = .ok s0 ∧
       (∀ fuel, n ≤ fuel → (VM.run (emit ti t) env fuel s0).1 = .done s) ∧ Agrees ti se pat i s := by
   obtain ⟨_, htier, _, hslot0⟩ := inFrag_spec hfrag
@@ -107,7 +111,7 @@ theorem compile_correct_upto (ti : TreeInfo) (t : GoNode) (TPx : TP) (env : VM.E
   simp only [treeWf, Bool.and_eq_true] at hwf
   obtain ⟨⟨hok, hcaps⟩, hbd⟩ := hwf
   obtain ⟨hlb, hroot, hstop⟩ := codeAt_root ti t hok
-  let W := worldOf ti t TPx env se hrel hlen
+  let W := worldOf ti t TPx env se hrel hlen k hlenS
   have hpr : toPat TPx false t = some (.cap 0 pat) := by
     rw [ht]; simp [toPat, hbody]
   -- slot of group 0
@@ -124,7 +128,7 @@ theorem compile_correct_upto (ti : TreeInfo) (t : GoNode) (TPx : TP) (env : VM.E
   have he0 : Entry W.X 0 i [] [] [] s0 := ⟨rfl, hf0, rfl, rfl, rfl, capRep_init _ _⟩
   obtain ⟨s1, hr1, he1⟩ := lazybranch_leads (X := W.X) he0 hlb hroot.fetch_start
   have hwfst : St.wf se.n ⟨i, []⟩ := ⟨hi, by simp⟩
-  have hdel := node_delivers W t 2 ⟨[], []⟩ (.cap 0 pat) htier hpr hok hcaps hbd hroot (TabExt.refl _) i
+  have hdel := node_delivers W hk t 2 ⟨[], []⟩ (.cap 0 pat) htier hpr hok hcaps hbd hroot (TabExt.refl _) i
     [(0 : Int), (i : Int)] [] [] s1 hwfst (by simp) (by simpa using he1)
   replace hdel : Delivers W.X (2 + size (mainCfg ti) t) [(0 : Int), (i : Int)] [] [] []
       (m se (.cap 0 pat) false ⟨i, []⟩) s1 := hdel
@@ -219,5 +223,20 @@ def ccAZ : List Nat := [0, 1, 0, 0, 0, 0, 0, 0, 0, 97, 122, 2097152, 97, 122]
 
 /-- `(?=a)[a-z]` -/
 def ccT4 : GoNode := .capture 0 (-1) (.concat [.poslook (.char opOne false false 97), .set false false ccAZ])
+
+/-- `(?:ab|c)+d` -/
+def ccT5 : GoNode :=
+  .capture 0 (-1) (.concat [.loop false 1 maxInt32 (.alt [.multi false false [97, 98], .char opOne false false 99]),
+    .char opOne false false 100])
+
+/-- `(?:a{2}b){1,3}?c` -/
+def ccT6 : GoNode :=
+  .capture 0 (-1) (.concat [.loop true 1 3 (.concat [.charloop opOneloop false false 97 2 2, .char opOne false false 98]),
+    .char opOne false false 99])
+
+/-- `(a*)+b` -/
+def ccT7 : GoNode :=
+  .capture 0 (-1) (.concat [.loop false 1 maxInt32 (.capture 1 (-1) (.charloop opOneloop false false 97 0 maxInt32)),
+    .char opOne false false 98])
 
 end RegexVerif.Compile
